@@ -394,6 +394,14 @@ class Parser:
                 return ("array", t, n)
             self.expect("]")
             return ("vec", t)
+        if self.peek().s in ("impl", "dyn") and self.peek().k == "id" and self.peek(1).k == "id":
+            # trait object / impl-trait: an opaque type named after the (first) trait
+            self.next()
+            t0 = self.type_()
+            while self.accept("+"):
+                if self.peek().k == "life": self.next()
+                else: self.type_()
+            return ("named", "Dyn" + (t0[1] if t0[0] == "named" else "T"), [])
         if self.peek().s in ("impl", "dyn", "fn", "*"):
             self.err("unsupported type")
         segs = [self.ident()]
